@@ -15,6 +15,7 @@ CONSTANTS
   KF_UnlockedSizeCheck = FALSE
   TruncNow = TRUE
   NoExpiryTest = FALSE
+  RefusalLeak = FALSE
   Sync = FALSE
   KeepHist = TRUE
   OneGate = FALSE
